@@ -34,6 +34,7 @@ type env struct {
 	root   *structSchema
 	path   string
 	nonNFC bool
+	nviol  map[string]int
 }
 
 // ---- witnesses ----
@@ -130,7 +131,7 @@ func (e *env) judgeRoundtrip(text []byte, exp reflect.Value, spells map[string]s
 		switch {
 		case d.kind != "label" && d.kind != "map-key" && d.expS != d.obsS && norm.NFC.String(d.expS) == d.obsS:
 			sig = "roundtrip:string:nfc-normalised"
-		case d.kind == "map-key" && d.nfc:
+		case d.nfc:
 			sig = "roundtrip:string:nfc-normalised"
 		case rec.spell == "heredoc-flush" && startsWithJoiner(d.expS):
 			sig = "roundtrip:string:heredoc-flush:joiner-at-line-start"
@@ -204,7 +205,7 @@ func (e *env) reportRoundtrip(f finding, bt built, v reflect.Value, res loadResu
 	if f.d != nil {
 		w.Path, w.ExpAt, w.ObsAt = f.d.path.String(), f.d.exp, f.d.obs
 	}
-	if len(bt.spells) <= 40 {
+	if len(bt.spells) <= 3000 {
 		w.Spells = map[string]spellRec2{}
 		for k, r := range bt.spells {
 			w.Spells[k] = spellRec2{r.kind, r.spell}
@@ -228,7 +229,7 @@ func run(c *lib.Ctx) {
 			"for a value of the wrong kind lying on the attribute is enough (the decoder's message names the required type, not the attribute)",
 		"null for a list/map attribute and \"1\"/\"0\" for a bool are accepted by the decoder and are not used as faults")
 
-	e := &env{c: c, root: schemaOf(rootType), nonNFC: os.Getenv("C14_NONNFC") != "0"}
+	e := &env{c: c, root: schemaOf(rootType), nonNFC: os.Getenv("C14_NONNFC") != "0", nviol: map[string]int{}}
 	dir, err := os.MkdirTemp("", fmt.Sprintf("c14-%d-", c.Shard))
 	if err != nil {
 		panic(err)
@@ -248,6 +249,9 @@ func run(c *lib.Ctx) {
 				req := "required"
 				if a.optional {
 					req = "optional"
+					if a.pinned {
+						req = "optional-by-tag-but-pinned-required"
+					}
 				}
 				fields = append(fields, ss.typ.Name()+"."+a.name+":"+a.kind.String()+":"+req)
 			}
@@ -295,6 +299,10 @@ func run(c *lib.Ctx) {
 		}
 		for _, f := range fs {
 			minimised[f.sig]++
+			if minimised[f.sig] > 3 {
+				c.Violation(f.sig, f.what, nil) // counted only; the lib keeps three witnesses per signature
+				continue
+			}
 			if minimised[f.sig] <= 1 {
 				if mbt, mv, mres, ok := e.minimise(f, bt, v, seed); ok {
 					e.reportRoundtrip(f, mbt, mv, mres, seed)
@@ -401,6 +409,11 @@ func (e *env) judgeAndReportMutant(f *fault, doc *bodyNode, sp *speller, text []
 		c.Observe("mutant-ok", 1)
 		return
 	}
+	e.nviol[vb.sig]++
+	if e.nviol[vb.sig] > 3 {
+		c.Violation(vb.sig, vb.what, nil)
+		return
+	}
 	w := witness{Mode: "mutant", Text: string(text), Fault: f, Error: res.errText, Diags: res.diags}
 	if minimiseIt && doc != nil {
 		// cheap minimisation: drop everything that is neither the fault, an ancestor of it, nor required
@@ -444,7 +457,7 @@ func pruneDoc(bn *bodyNode, keep map[node]bool, encl *blockNode) *bodyNode {
 			case *attrNode:
 				if keep[n] {
 					nb.items = append(nb.items, n)
-				} else if n.sch != nil && !n.sch.optional {
+				} else if n.sch != nil && n.sch.required() {
 					a := *n
 					a.heredocEnd = false
 					switch n.sch.kind {
